@@ -878,6 +878,11 @@ pub(crate) fn tokens_to_operator_tree<NumericTypes: EvalexprNumericTypes>(
         };
 
         if let Some(mut node) = node {
+            // A binary operator needs a value on its left side
+            if node.operator().max_argument_amount() == Some(2) && !last_token_is_rightsided_value {
+                return Err(EvalexprError::wrong_operator_argument_amount(0, 2));
+            }
+
             // Need to pop and then repush here, because Rust 1.33.0 cannot release the mutable borrow of root_stack before the end of this complete if-statement
             if let Some(mut root) = root_stack.pop() {
                 if node.operator().is_sequence() {
